@@ -112,6 +112,19 @@ def handle (line : String) : String :=
     let c := (genC Gen.specData).all.filter fun x => lookupConst x.1 Gen.cConsts != some (x.2 : Int)
     if g.isEmpty && c.isEmpty then "ok"
     else "BAD generated files differ from generator(spec): go[" ++ nvStr g ++ "] c[" ++ nvStr c ++ "]"
+  | ["listencheck"] =>
+    let bad := [(6, false), (6, true), (17, false), (17, true)].filter fun x => cListenKey x.1 x.2 != goListenKey (listenerOfPacket x.1 x.2)
+    if bad.isEmpty then "ok listener keys"
+    else "BAD listener socket keys: " ++ " ; ".intercalate (bad.map fun x =>
+      s!"l4proto={x.1} ipv6={x.2}: kernel looks up key {cListenKey x.1 x.2}, control plane stores that listener under key {goListenKey (listenerOfPacket x.1 x.2)}")
+  | ["conncheck"] =>
+    let cases := [0, 1, 2, 7, 128, 255].flatMap fun o => [(o, 6, true), (o, 6, false), (o, 17, true), (o, 17, false)]
+    let bad := cases.filter fun x => cConnKey x.1 x.2.1 80 x.2.2 != some (goConnKey x.1 (ntOfPacket x.2.1 x.2.2))
+    let oob := cases.filter fun x => goConnKey x.1 (ntOfPacket x.2.1 x.2.2) ≥ mapMaxEntries n!"outbound_connectivity_map"
+    if bad.isEmpty && oob.isEmpty then "ok connectivity slots"
+    else "BAD connectivity slots: " ++ " ; ".intercalate ((bad.take 4).map fun x =>
+      s!"outbound={x.1} l4proto={x.2.1} ipv4={x.2.2} dport=80: kernel reads slot {optStr (cConnKey x.1 x.2.1 80 x.2.2)}, control plane writes slot {goConnKey x.1 (ntOfPacket x.2.1 x.2.2)}")
+      ++ (if oob.isEmpty then "" else s!" ; slot beyond max_entries={mapMaxEntries n!"outbound_connectivity_map"} for outbound {(oob.map (·.1)).take 3}")
   | ["archreport"] =>
     let bad := pairing.flatMap fun p => (archesAll.filter fun a => !pairOk Gen.cRecs (goRecsFor a) p).map fun a => s!"{nameStr p.go}@{nameStr a}"
     "mismatch-anywhere=" ++ ",".intercalate bad
